@@ -66,6 +66,25 @@ deriving DecidableEq, Repr
 
 def G.new (sizes : List Nat) (ksize : Nat) : G := { tables := sizes.map Table.new, ksize := ksize }
 
+/-- trial division (stands for `primal_check::miller_rabin`, which is exact on `u64`) -/
+def isPrime (n : Nat) : Bool :=
+  n ≥ 2 && (List.range (n - 2)).all (fun d => (d + 2) * (d + 2) > n || n % (d + 2) != 0)
+
+/-- the loop of `with_tables`: descending odd numbers from `i`, primes kept, until `need` were
+    found or 1 was reached (`fuel` ≥ i) -/
+def primesDown : Nat → Nat → Nat → List Nat
+  | 0, _, _ => []
+  | fuel + 1, i, need =>
+    if need == 0 then [] else
+    if isPrime i then i :: (if i == 1 then [] else primesDown fuel (i - 2) (need - 1))
+    else (if i == 1 then [] else primesDown fuel (i - 2) need)
+
+/-- `with_tables(tablesize, n_tables, ksize)` for `tablesize ≥ 1` (`tablesize - 1` underflows at 0) -/
+def G.withTables (tablesize ntables ksize : Nat) : G :=
+  let i := max (tablesize - 1) 2
+  let i := if i % 2 == 0 then i - 1 else i
+  G.new (primesDown (i + 1) i ntables) ksize
+
 /-- `count`: every table sets bit `h % len`; `occupied_bins` counts new bits of table 0;
     `unique_kmers` counts calls that set at least one new bit. -/
 def G.count (g : G) (h : Nat) : G × Bool :=
@@ -134,17 +153,22 @@ def encRev : List Nat → Nat → Option Nat
     | none => none
     | some r => encRev cs (shl2or acc r)
 
-/-- `_hash`; the empty k-mer indexes out of range (`none`).  (For k = 1 the real code computes
-    `(ksize - 2) as isize`, which wraps in release builds and is an overflow panic in builds with
-    overflow checks; the model is the release behaviour and the generators start at k = 2 for the
-    checked build.) -/
+/-- the two strands and `uniqify_rc` -/
+def hashKmerCore (kmer : List Nat) : Option Nat :=
+  match encFwd kmer 0, encRev kmer.reverse 0 with
+  | some f, some r => some (if f < r then f else r)
+  | _, _ => none
+
+/-- `_hash` as compiled without overflow checks (release builds, the Python wheels): the empty
+    k-mer indexes out of range (`none`); for k = 1 `(ksize - 2) as isize` wraps to -1 and the loop does
+    not run. -/
 def hashKmer (kmer : List Nat) : Option Nat :=
-  match kmer with
-  | [] => none
-  | _ =>
-    match encFwd kmer 0, encRev kmer.reverse 0 with
-    | some f, some r => some (if f < r then f else r)
-    | _, _ => none
+  if kmer.isEmpty then none else hashKmerCore kmer
+
+/-- `_hash` as compiled with overflow checks (dev/test profile): `ksize - 2` on a `usize` panics
+    for k = 1 — through the C API that is an abort of the process. -/
+def hashKmerChecked (kmer : List Nat) : Option Nat :=
+  if kmer.length < 2 then none else hashKmerCore kmer
 
 def G.countKmer (g : G) (kmer : List Nat) : Option (G × Bool) := (hashKmer kmer).map g.count
 def G.getKmer (g : G) (kmer : List Nat) : Option Nat := (hashKmer kmer).map g.get
